@@ -359,3 +359,112 @@ def error_programs(rng, bw, n):
             a.op("STOP")
         out.append(a.assemble())
     return out
+
+
+ALU2 = ["ADD", "MUL", "SUB", "DIV", "SDIV", "MOD", "SMOD", "EXP", "LT", "GT", "SLT", "SGT", "EQ", "AND", "OR", "XOR",
+        "SHL", "SHR", "SAR"]
+ALU1 = ["ISZERO", "NOT"]
+K4_OPS = ["ADDMOD", "MULMOD", "SIGNEXTEND", "BYTE"]
+
+
+def c07_programs(rng, bw, n, known_class=False, max_branches=5):
+    """stack-safe, loop-free programs over C07's fragment: PUSH0..32, DUP/SWAP, POP, ALU, PC, CODESIZE, aligned
+    MSTORE/MLOAD, SLOAD/SSTORE on literal keys, forward JUMP/JUMPI to constant targets (<= 5 JUMPIs)."""
+    out = []
+    keys = [0, 1, 2, 3, 2 ** 64, 2 ** 128 + 5, 2 ** 256 - 1, 0x360894a13ba1a3210667c828492db98dca3e2076cc3735a920a3ca505d382bbc]
+    for _ in range(n):
+        a = Asm()
+        depth = 0
+        branches = 0
+        labels = 0
+        pending = []    # (label, depth expected at label)
+
+        def operand():
+            r = rng.random()
+            if r < 0.3:
+                return rng.choice([0, 1, 2, 3, 7, 8, 31, 32, 255, 256])
+            if r < 0.85:
+                return rng.choice(bw)
+            return rng.getrandbits(rng.choice([8, 64, 160, 255, 256]))
+
+        def block(k):
+            nonlocal depth, branches, labels
+            for _ in range(k):
+                r = rng.random()
+                if depth < 2 or r < 0.3:
+                    v = operand()
+                    if rng.random() < 0.15:
+                        nb = max(1, (v.bit_length() + 7) // 8)
+                        a.push(v, rng.randrange(nb, 33))      # wider PUSH than necessary
+                    else:
+                        a.push(v)
+                    depth += 1
+                elif r < 0.6:
+                    a.op(rng.choice(ALU2)); depth -= 1
+                elif r < 0.66:
+                    a.op(rng.choice(ALU1))
+                elif r < 0.7 and known_class:
+                    opn = rng.choice(K4_OPS)
+                    need = 3 if opn in ("ADDMOD", "MULMOD") else 2
+                    while depth < need:
+                        a.push(operand()); depth += 1
+                    a.op(opn); depth -= need - 1
+                elif r < 0.76:
+                    m = rng.randrange(1, min(depth, 16) + 1)
+                    if depth < 1000:
+                        a.raw([0x7f + m]); depth += 1
+                elif r < 0.8:
+                    if depth >= 2:
+                        a.raw([0x8f + rng.randrange(1, min(depth - 1, 16) + 1)])
+                elif r < 0.83:
+                    a.op("POP"); depth -= 1
+                elif r < 0.86:
+                    a.op(rng.choice(["PC", "CODESIZE"])); depth += 1
+                elif r < 0.9:
+                    off = rng.choice([0, 32, 64, 96, 0x80])
+                    if rng.random() < 0.6:
+                        a.push(off).op("MSTORE"); depth -= 1
+                    else:
+                        a.push(off).op("MLOAD"); depth += 1
+                elif r < 0.97:
+                    key = rng.choice(keys)
+                    if known_class and rng.random() < 0.3:
+                        a.push(key - 1 if key else 0).push(1 if key else 0).op("ADD")     # computed key
+                    else:
+                        a.push(key)
+                    if rng.random() < 0.55:
+                        a.op("SSTORE"); depth -= 1
+                    else:
+                        a.op("SLOAD"); depth += 1
+                elif branches < max_branches:
+                    branches += 1
+                    name = "L%d" % labels
+                    labels += 1
+                    if rng.random() < 0.8:
+                        # conditional: both outcomes are explored
+                        a.push(rng.choice([0, 1, operand()])).push_label(name).op("JUMPI")
+                        d0 = depth
+                        if rng.random() < 0.5:
+                            block(rng.randrange(1, 5))
+                            # bring the fall-through back to the depth the jump-taken path has
+                            while depth > d0:
+                                a.op("POP"); depth -= 1
+                            while depth < d0:
+                                a.push(operand()); depth += 1
+                        else:
+                            block(rng.randrange(1, 4))
+                            a.op(rng.choice(["STOP", "INVALID"]))
+                            depth = d0
+                        a.label(name)
+                    else:
+                        a.push_label(name).op("JUMP")
+                        a.op("INVALID")
+                        a.label(name)
+        block(rng.choice([6, 12, 25, 40]))
+        r = rng.random()
+        if r < 0.5:
+            a.op("STOP")
+        elif r < 0.65 and depth >= 2:
+            a.op(rng.choice(["RETURN", "REVERT"]))
+        out.append(a.assemble())
+    return out
